@@ -21,6 +21,7 @@ Definition fres_eqb (a b : fres) : bool :=
 
 Inductive c09case :=
 | KUnit (c : fcfg) (spec : string) (its : items) (expected : fres)          (* format(unit, spec) *)
+| KUnitMany (c : fcfg) (its : items) (expected : list (string * fres))            (* the same unit under several specs *)
 | KQty (c : fcfg) (spec : string) (mstrs : list (string * string)) (its : items) (expected : fres)
                                                                             (* format(quantity, spec) *)
 | KSplit (spec dflt : string) (sep : option bool) (m u : string)            (* split_format *)
@@ -52,6 +53,8 @@ Definition back (qk : quirks) (r : reg) (f : fmtid) (short : bool) (its : items)
 Definition c09_ok (qk : quirks) (r : reg) (c : c09case) : bool :=
   match c with
   | KUnit cf spec its e => fres_eqb (fres_of (full_format_unit qk r cf spec its)) e
+  | KUnitMany cf its es =>
+      forallb (λ se : string * fres, fres_eqb (fres_of (full_format_unit qk r cf se.1 its)) se.2) es
   | KQty cf spec ms its e => fres_eqb (fres_of (full_format_quantity qk r cf spec ms its)) e
   | KSplit spec d sep m u =>
       let '(m', u') := split_format spec d sep in String.eqb m m' && String.eqb u u'
